@@ -16,7 +16,10 @@ CONSTANTS
   Strict = FALSE
   WithServe = FALSE
   Hist = FALSE
-INVARIANTS C06_Silent C06_NoEarlyClose C06_CloseInstant C06_NormalClose C06_NotStuckAfterDeadline C06_DrainHolds
-INVARIANTS C15_Language C15_AuthOnlyIfAuthenticated C15_ProbeIffFailed C15_ProbeBytes C15_Status C15_OkIffComplete C15_Counters
+  SlackEarly = 0
+  SlackLate = 0
+  SlackSched = 0
+INVARIANTS Inv_C06 Inv_C06Drain C06_NotStuckAfterDeadline
+INVARIANTS Inv_C15 C15_CountersTrackDelivery
 INVARIANTS C18_NoLeak C18_ServeWaits C18_SocketsFollowHandler
 VIEW View
